@@ -25,7 +25,9 @@ def run(tier, seed, t0):
     with open(cases_path, "w") as f:
         for c in cases:
             f.write(json.dumps(c) + "\n")
-    args = ["publish", "--out", tdir, "--seed", seed, "--tier", tier, "--shards", vlib.NCPU, "--cases", cases_path]
+    # quick: ~25 000 records; fewer, larger shards cost less JVM start-up
+    shards = vlib.NCPU if tier == "thorough" else max(4, vlib.NCPU // 2)
+    args = ["publish", "--out", tdir, "--seed", seed, "--tier", tier, "--shards", shards, "--cases", cases_path]
     _, out, _ = vlib.run_vh(args, timeout=1500, bin="vh_tune")
     summ = json.loads(out.strip().splitlines()[-1])
     files = sorted(glob.glob(os.path.join(tdir, "c02-*.ndjson")))
